@@ -1,5 +1,6 @@
 import ast
 import itertools
+import keyword
 from abc import ABC, abstractmethod
 from ast import AST
 from collections import defaultdict
@@ -151,7 +152,12 @@ class BuiltinBroachingCodeGenerator(BroachingCodeGenerator):
                 args.append(sub_ast)
             elif isinstance(arg, KeywordArg):
                 sub_ast = self._gen_plan_element_dispatch(state, arg.element)
-                keywords.append(ast.keyword(arg=arg.key, value=sub_ast))  # type: ignore[call-overload]
+                if keyword.iskeyword(arg.key):  # e.g. TypedDict with key ``class``
+                    keywords.append(
+                        ast.keyword(value=ast.Dict(keys=[ast.Constant(arg.key)], values=[sub_ast])),  # type: ignore[call-overload]
+                    )
+                else:
+                    keywords.append(ast.keyword(arg=arg.key, value=sub_ast))  # type: ignore[call-overload]
             elif isinstance(arg, UnpackMapping):
                 sub_ast = self._gen_plan_element_dispatch(state, arg.element)
                 keywords.append(ast.keyword(value=sub_ast))  # type: ignore[call-overload]
